@@ -623,7 +623,11 @@ def parse_included_file(
     relpath, linenum = relpath_from_inclusion_element(inclusion, context)
     inclusion_path = parent_path.parent / relpath
     # someday add a check that we don't go outside of the project dir
-    if not inclusion_path.is_file():
+    try:
+        is_file = inclusion_path.is_file()
+    except OSError:  # e.g. ENAMETOOLONG: pathlib only ignores "no such file" errors
+        is_file = False
+    if not is_file:
         raise exc.DataGenError(
             f"Cannot load include file {inclusion_path}", **linenum._asdict()
         )
